@@ -13,6 +13,8 @@ import (
 // checkers maps a property id to its rule set.
 var checkers = map[string]func(r *Report){
 	"C01": checkC01,
+	"C02": checkC02,
+	"C03": checkC03,
 	"C05": checkC05,
 	"C06": checkC06,
 	"C07": checkC07,
@@ -20,6 +22,8 @@ var checkers = map[string]func(r *Report){
 	"C13": checkC13,
 	"C14": checkC14,
 	"C18": checkC18,
+	"C19": checkC19,
+	"C16": checkC16,
 	"C17": checkC17,
 }
 
